@@ -560,5 +560,5 @@ META = {
     "schedules and value-level len/index consistency are not decided.",
     "note": "Decides the listed structural clauses, not the behaviour. Assumes location fields stay below 10 digits "
     "(fixed-width fields).",
-    "more": "Also decided: every value a read returns is rooted in the in-memory tail or the file opened under the reader's own ticket; a read cache on the history object must be dropped by every method that rewrites a history file. SQLite backend: the repeat test, the recorded text and the remembered previous text are one expression. The raw append counter is read by len() only (the memory/disk boundary of every index computation starts from len(), which discounts skipped commands); a method that empties the record forgets the remembered previous text.",
+    "more": "Also decided: every value a read returns is rooted in the in-memory tail or the file opened under the reader's own ticket; a read cache on the history object must be dropped by every method that rewrites a history file. SQLite backend: the repeat test, the recorded text and the remembered previous text are one expression. The raw append counter is read by len() only (the memory/disk boundary of every index computation starts from len(), which discounts skipped commands); a method that empties the record forgets the remembered previous text. The enumeration hands out history files as the listing spells them and own-file tests compare str with str (known finding: a Path-typed $XONSH_HISTORY_FILE).",
 }
